@@ -371,6 +371,15 @@ func TestVerifC16(t *testing.T) {
 					return
 				}
 				variants := []string{`"` + pl.yaml + `"`}
+				// structured wrappers: the payload at the place where a sub-syntax (glob class and
+				// range, escape, action reference, cron field) echoes a single character or field
+				core := pl.yaml
+				if len(core) >= 3 && core[0] == 'a' && core[len(core)-1] == 'b' {
+					core = core[1 : len(core)-1]
+				}
+				for _, w := range []string{"[a-%s]", "[%s-a]", "[%s]", "x%s+", "\\\\%s", "own/rep@%s", "docker://%s", "./%s", "@%s", "%s * * * *", "* * %s * *", "%s: x", "x, %s"} {
+					variants = append(variants, `"`+fmt.Sprintf(w, core)+`"`)
+				}
 				if !p.IsKey {
 					// also embedded in the original text and inside a string literal of an expression
 					variants = append(variants, `"`+strings.ReplaceAll(p.Value, `"`, `\"`)+pl.yaml+`"`, `"${{ '`+pl.yaml+`' == 1 }}"`, `"${{ fromJSON('{\"`+strings.ReplaceAll(pl.yaml, `\`, `\\`)+`\": 1}').zz }}"`, `"${{ nosuch_`+pl.yaml+` }}"`)
